@@ -426,10 +426,10 @@ fn c17_file_list_keeps_listed_order_2() {
 }
 
 fn file_ranges_three_files(pl: u64) {
-    // lengths structurally below 2^16
-    let l0: u64 = (kani::any::<u32>() & 0xFFFF) as u64;
-    let l1: u64 = (kani::any::<u32>() & 0xFFFF) as u64;
-    let l2: u64 = (kani::any::<u32>() & 0xFFFF) as u64;
+    // lengths structurally below 2^31
+    let l0: u64 = (kani::any::<u32>() & 0x7FFF_FFFF) as u64;
+    let l1: u64 = (kani::any::<u32>() & 0x7FFF_FFFF) as u64;
+    let l2: u64 = (kani::any::<u32>() & 0x7FFF_FFFF) as u64;
     let files = vec![
         File { length: l0, path: String::from("a") },
         File { length: l1, path: String::from("b") },
@@ -452,8 +452,8 @@ fn file_ranges_three_files(pl: u64) {
 
 // @prop C03
 // @fn Metainfo::file_piece_ranges, Metainfo::piece_pos
-// @bound three files with every triple of lengths in 0..2^16 (zero-length files, several files inside one piece, files ending on a piece boundary included), piece lengths 4 and 16384
-// @outside more than three files; lengths >= 2^16; symbolic piece lengths (DESIGN 3.12); the extractor that consumes the ranges (3.10)
+// @bound three files with every triple of lengths in 0..2^31 (zero-length files, several files inside one piece, files ending on a piece boundary included), piece lengths 4 and 16384
+// @outside more than three files; lengths >= 2^31; symbolic piece lengths (DESIGN 3.12); the extractor that consumes the ranges (3.10)
 // @desc the running byte offset accumulates over ALL earlier files: the third file starts at len0+len1 and ends at len0+len1+len2, each mapped to (offset / piece_length, offset % piece_length)
 #[kani::proof]
 #[kani::unwind(5)]
